@@ -22,6 +22,18 @@ def enumerate_paths(fn, limit=4096, noreturn=()):
                 ev.append(("ret", n))
         return ev
 
+    from .facts import walk
+    taken = set()
+    for x in walk(fn.body):
+        if x.get("k") == "un" and x.get("op") == "&":
+            t = X.strip(x["ch"][0])
+            if t is not None and t.get("k") == "ref":
+                taken.add(t.get("d"))
+        elif x.get("k") == "un" and x.get("op") in ("++", "--"):
+            t = X.strip(x["ch"][0])
+            if t is not None and t.get("k") == "ref":
+                taken.add(t.get("d"))       # not tracked as an event: do not trust constants of such locals
+
     def rec(b, path, seen):
         if len(out) >= limit:
             return
@@ -35,6 +47,17 @@ def enumerate_paths(fn, limit=4096, noreturn=()):
             out.append(list(path) + [("noreturn",)])
         else:
             edges = cfg.edges(b)
+            # constants held by locals at this point of the path (a mode chosen on an earlier branch: what = RESIZE_IN_PLACE)
+            known = {}
+            for e_ in path:
+                if e_[0] == "assign":
+                    l_ = X.strip(e_[2]["ch"][0])
+                    if l_ is not None and l_.get("k") == "ref" and l_.get("rk") == "local" and l_.get("d") not in taken:
+                        cv_ = X.const_val(e_[2]["ch"][1]) if e_[2].get("op") == "=" else None
+                        if cv_ is None:
+                            known.pop(l_["d"], None)
+                        else:
+                            known[l_["d"]] = cv_
             for s, cond, truth in edges:
                 if (b, s) in seen:
                     continue
@@ -42,6 +65,30 @@ def enumerate_paths(fn, limit=4096, noreturn=()):
                     cv = X.const_val(cond)
                     if cv is not None and bool(cv) != truth:
                         continue
+                if cond is not None and known:
+                    c_ = X.strip(cond)
+                    neg_ = False
+                    while c_ is not None and c_.get("k") == "un" and c_.get("op") == "!":
+                        neg_ = not neg_
+                        c_ = X.strip(c_["ch"][0])
+                    val_ = None
+                    if c_ is not None and c_.get("k") == "ref" and c_.get("d") in known:
+                        val_ = known[c_["d"]]
+                        if isinstance(truth, tuple):
+                            if truth[0] == "case" and truth[1] is not None and truth[1] != val_:
+                                continue
+                            if truth[0] == "default" and len(truth) > 1 and val_ in truth[1]:
+                                continue
+                        elif (bool(val_) != neg_) != truth:
+                            continue
+                    elif c_ is not None and c_.get("k") == "bin" and c_.get("op") in ("==", "!=") and not isinstance(truth, tuple):
+                        a_, b_ = X.strip(c_["ch"][0]), X.strip(c_["ch"][1])
+                        for x_, y_ in ((a_, b_), (b_, a_)):
+                            if x_ is not None and x_.get("k") == "ref" and x_.get("d") in known and X.const_val(y_) is not None:
+                                res_ = (known[x_["d"]] == X.const_val(y_)) == (c_["op"] == "==")
+                                val_ = res_ != neg_
+                        if val_ is not None and val_ != truth:
+                            continue
                 item = None
                 if cond is not None and X.const_val(cond) is None:
                     item = ("cond", cond, truth)
